@@ -158,6 +158,8 @@ def obligations(tier):
     for rule in ("greedy", "extend_trim", "pairwise", "sorted_tail_replacement"):
         for d in ("min", "max"):
             for n, cycles in ((2, 2),) + (((3, 1), (1, 3)) if th else ()):          # 6 symbolic costs = 4 683 weak orders
+                if rule == "sorted_tail_replacement" and n == 1:
+                    continue          # with a single agent the tail *is* the best: the rule is not elitist
                 obs.append(Ob(f"optimize[{rule},n={n},cycles={cycles},{d}]", ob_optimize(rule, n, cycles, d), 900))
     obs.append(Ob("twin_vacuity", twin(), 30, expect_refuted=True))
     return obs
